@@ -83,6 +83,7 @@ fn reparse<B: Backend>(kp: &KeyPair<B>) -> KeyPair<B> {
 }
 
 fn one<B: Backend>(rep: &mut Report, kp: &KeyPair<B>, keylabel: &str, msg: &[u8], footer: &[u8], aad: &[u8], repeat: bool) {
+    crate::noise::sprinkle::<B>();
     let p = kp.purpose();
     let class = format!("{}.{}.{}", B::NAME, p.name(), if repeat { "repeat" } else { "grid" });
     let (sealing_raw, _) = kp.raw();
